@@ -125,7 +125,7 @@ def judge(v, res, stages, pid):
         sc = res["byid"].get(sid, {})
         if stage == "shape":
             raise vlib.ToolError("Trace_Verifier: the recorded proof does not have the shape the specification expects (%s)" % describe(sc))
-        mine = (stage in stages) if stages is not None else True
+        mine = (stage in stages) if stages is not None else stage not in ("ood", "coefficients")
         if not mine:
             continue
         if verdict == "accept":
